@@ -6,3 +6,5 @@ Eval vm_compute in (tree_diag 0 tree_cases).
 Eval vm_compute in (desc_diag 0 desc_cases).
 Eval vm_compute in (filter (fun p => negb (pcase_ok p)) plan_cases).
 Eval vm_compute in (limit_diag 0 limit_cases).
+Eval vm_compute in (depth_diag depth_cases).
+Eval vm_compute in (keyonly_diag keyonly_cases).
